@@ -165,6 +165,9 @@ class ShapeOf:
         return f"ShapeOf({self.ref})"
 
 
+_NEG_OP = {"<": "<=", "<=": "<", "==": "!=", "!=": "=="}
+
+
 class Cond:
     """kind: 'cmp' (lhs, op, rhs) | 'not' (c,) | 'and' / 'or' (c...) | 'truth' (value,) | 'opaque' (text,)"""
 
@@ -179,13 +182,29 @@ class Cond:
     def negate(self) -> "Cond":
         if self.kind == "not":
             return self.args[0]
+        if self.kind == "or":
+            # De Morgan: the fall-through of `if a or b: continue` is the conjunction of the negated disjuncts
+            return Cond("and", *[a.negate() for a in self.args], node=self.node)
+        if self.kind == "cmp" and len(self.args) == 3 and self.args[1] in _NEG_OP:
+            # not (a < b) is stored as b <= a (index arithmetic; NaN ordering is outside what the canonical forms distinguish)
+            a, op, b = self.args
+            nop = _NEG_OP[op]
+            c = Cond("cmp", b, nop, a, node=self.node) if nop in ("<", "<=") and op in ("<", "<=") else Cond("cmp", a, nop, b, node=self.node)
+            for k in ("path",):
+                if hasattr(self, k):
+                    setattr(c, k, getattr(self, k))
+            return c
         return Cond("not", self, node=self.node)
 
     def flat_and(self) -> List["Cond"]:
         if self.kind == "and":
             out = []
             for a in self.args:
-                out.extend(a.flat_and())
+                for x in a.flat_and():
+                    if hasattr(self, "path") and not hasattr(x, "path"):
+                        x = Cond(x.kind, *x.args, node=x.node)
+                        x.path = self.path
+                    out.append(x)
             return out
         return [self]
 
@@ -624,6 +643,10 @@ class KEval:
             if isinstance(v, tuple) and len(v) == len(t.elts):
                 for a, b in zip(t.elts, v):
                     self.bind_target(a, b, env)
+            elif isinstance(v, ShapeOf):
+                # a, b = X.shape binds a to X.shape[0], b to X.shape[1]
+                for k, a in enumerate(t.elts):
+                    self.bind_target(a, v.get(k), env)
             elif isinstance(v, Ref):
                 for k, a in enumerate(t.elts):
                     self.bind_target(a, v.index((Poly.const(k),)), env)
